@@ -222,7 +222,7 @@ class IO:
             out["msg"] = str(exc)[:300]
         # C16: the object is unchanged whether the export succeeded or failed
         if sim.active("C16"):
-            dd = observe.deep_diff(pre, observe.deep(tr, len(sim.emissions)))
+            dd = observe.deep_diff(pre, observe.deep(tr, len(sim.emissions)), ignore=("counters",))
             if dd:
                 oracle = "C16.export" if exc is None else "C16.export_failed"
                 sim.violate("C16", oracle, f"{kind} {fmt}{' (failed with injected I/O error)' if exc is not None else ''} changed {dd[:2]}", op, out["tags"])
@@ -281,7 +281,7 @@ class IO:
             if seam.fired:
                 sim.count("io_fault_" + fk)
             if sim.active("C16"):
-                dd = observe.deep_diff(pre, observe.deep(tr, len(sim.emissions)))
+                dd = observe.deep_diff(pre, observe.deep(tr, len(sim.emissions)), ignore=("counters",))
                 if dd:
                     sim.violate("C16", "C16.export_failed" if exc is not None else "C16.export", f"{kind} {fmt} with {fk} #{k} failing changed {dd[:2]}", op, out["tags"] + [fk])
                     return out
